@@ -76,3 +76,6 @@ package icmp
 
 //@ census[C04] DataWriter.WriteICMPEcho in (*Handler).waitForReply
 //@ census[C04] (*Session).Encrypt in (*Handler).waitForReply
+
+// C04: the session key is wiped only by Close, which holds the write lock that Encrypt/Decrypt exclude with their read lock.
+//@ census[C04] crypto.(*SessionKey).Zero in (*Session).Close
